@@ -398,7 +398,7 @@ pub fn systematic_scripts(max_len: usize, seeds: u64) -> impl Iterator<Item = Sc
                 let mut replies = Vec::new();
                 let mut k = 0;
                 let steps = digits.iter().map(|d| atom(*d, &mut k, &mut replies)).collect();
-                Script { sched_seed: seed + 1, seg, replies, steps, max_write: None, picture: None, broken_pipe: true, greeting: None, lazy_events: false, version: None, vectored: false }
+                Script { sched_seed: seed + 1, seg, replies, steps, max_write: None, picture: None, broken_pipe: true, greeting: None, lazy_events: false, version: None, vectored: false, events_polled_last: false }
             })
         })
     })
@@ -449,7 +449,7 @@ fn slow_consumer_part() -> Box<dyn crate::core::Part> {
                             steps.push(Step::Advance(101));
                         }
                     }
-                    Script { sched_seed: seed, seg: sim::SegPattern::Whole, replies, steps, max_write: None, picture: None, broken_pipe: true, greeting: None, lazy_events: true, version: None, vectored: false }
+                    Script { sched_seed: seed, seg: sim::SegPattern::Whole, replies, steps, max_write: None, picture: None, broken_pipe: true, greeting: None, lazy_events: true, version: None, vectored: false, events_polled_last: false }
                 })
                 .boxed()
         }),
